@@ -431,6 +431,14 @@ func GenPlan(prop string, seed uint64, tier string) *Plan {
 			// ... or its predecessor leaves through it while the join request is still being served
 			p.Triggers[len(p.Triggers)-1].Target, p.Triggers[len(p.Triggers)-1].Kind = "pred-of-callee", "leave"
 		}
+		if churn && r.Chance(0.4) {
+			// the mirror image: a node serves a leave request slowly, and a new node joins right in front of it
+			// (between the leaver and itself) while the request is still being served
+			p.Sched.SlowMethod = "RequestToLeave"
+			p.Triggers = p.Triggers[:len(p.Triggers)-2]
+			p.Triggers = append(p.Triggers, Trigger{OnMethod: "RequestToLeave", Nth: 1 + r.Intn(3), Target: "callee", Kind: "join-before", AtStart: true,
+				Delay: time.Duration(r.Int63n(int64(300 * time.Millisecond))), Spare: 1 + r.Uint64()%1000})
+		}
 	}
 	if churn && r.Chance(0.35) {
 		// two changes that meet at the wrap-around pair: the member with the largest identifier starts to leave
